@@ -26,9 +26,6 @@ def install(w):
                params={"variable_node": "ref:ValueNode", "variable_values": "opaque",
                        "fragment_variable_values": "opaque"}, returns="bool", ensures=[],
                assumed=True)
-    w.contract(f"{CV}.coerce_default_value", params={"input_value": "ref:GraphQLInputField"},
-               # raises TypeError only for an invalid default (excluded by schema validity, A7)
-               returns="dyn", ensures=[], raises=[], assumed=True)
     w.contract("graphql.utilities.replace_variables.replace_variables",
                params={"value_node": "ref:ValueNode", "variable_values": "opaque",
                        "fragment_variable_values": "opaque"}, returns="ref:ValueNode", ensures=[],
@@ -73,7 +70,7 @@ def install(w):
                               "implies(field_node is None and is_undefined(result), RequiredField(field))"],
                           "step_post": [
                               "implies(field_node is None, not RequiredField(field))"]}},
-               props={"C15", "C13"})
+               props={"C15", "C13", "C02"})
 
 
 def install_validate_literal(w):
@@ -131,7 +128,7 @@ def install_validate_literal(w):
                    "ghost('errs') >= old(ghost('errs'))",
                    # every entry seen so far is known, or an unknown field has been reported
                    "ghost('errs') > old(ghost('errs')) or len(known_fields) == _i"]}},
-               props={"C15", "C20"})
+               props={"C15", "C20", "C13"})
 
 
 _lit_prev = install
@@ -163,3 +160,75 @@ _lit_prev2 = install
 def install(w):   # noqa: F811
     _lit_prev2(w)
     install_value_to_literal(w)
+
+
+def install_default_memo(w):
+    """coerce_default_value memoises the coerced default on the GraphQLDefaultInput object, which can
+    be shared by fields of different types (a schema and its extension, list wrappers of one named
+    type).  The memo is verified against a specification function: CD(default, T) = the coercion of
+    the default's literal (or value) for type T, where coerce_input_literal / coerce_input_value
+    are taken to be functions of their arguments (assumed_ensures: purity, not proved).
+      requires  the memo holds nothing, or a pair (T0, CD(default, T0))
+      ensures   result == CD(default, input_value.type), and the memo again holds such a pair
+    so a memo that is read for another type than it was filled for, or filled under another key
+    than the type coerced for, fails."""
+    import z3
+    from pyvc import sym
+    from pyvc.sym import VDyn, VBool
+    from pyvc.refs import RefS
+    from theories import gtypes as G
+    from theories.val import TY_BOX, TY_UNBOX
+    CILF = z3.Function("coerced_literal", RefS, G.TyS, sym.ValS)
+    CIVF = z3.Function("coerced_value", sym.ValS, G.TyS, sym.ValS)
+
+    def dyn(it, v):
+        return v.t if isinstance(v, VDyn) else w.to_dyn(it, v).t
+    def f_cil(it, n, t):
+        from pyvc.codec import VOpt
+        from pyvc.sym import VAtom, VOpaque
+        if isinstance(n, VOpt):
+            n = n.val
+        if isinstance(n, (VAtom, VOpaque)):
+            return it.fresh_dyn("undef")      # no literal: undefined operand of a guarded clause
+        return VDyn(CILF(n.t, t.t))
+    w.spec_funcs["CIL"] = f_cil
+    w.spec_funcs["CIV"] = lambda it, v, t: VDyn(CIVF(dyn(it, v), t.t))
+    w.spec_funcs["unbox_ty"] = lambda it, v: G.VTy(TY_UNBOX(dyn(it, v)))
+    w.spec_funcs["is_boxed_ty"] = lambda it, v: VBool(TY_BOX(TY_UNBOX(dyn(it, v))) == dyn(it, v))
+    w.mutable_ref_fields[("GraphQLDefaultInput", "_memoized_coerced_value")] = True
+    w.contracts[f"{CV}.coerce_input_literal"].assumed_ensures = [
+        "implies(variable_values is None and fragment_variable_values is None,"
+        " same(result, CIL(value_node, type_)))"]
+    w.contracts[f"{CV}.coerce_input_value"].assumed_ensures = [
+        "same(result, CIV(input_value, type_))"]
+    w.define("CD", "d, t", "ite_val(d.literal is not None, CIL(d.literal, t), CIV(d.value, t))")
+    w.define("MemoOK", "d",
+             "is_undefined(d._memoized_coerced_value) or (is_tuple(d._memoized_coerced_value)"
+             " and vlen(d._memoized_coerced_value) == 2"
+             " and is_boxed_ty(vitem(d._memoized_coerced_value, 0))"
+             " and InputTy(unbox_ty(vitem(d._memoized_coerced_value, 0)))"
+             " and same(vitem(d._memoized_coerced_value, 1),"
+             " CD(d, unbox_ty(vitem(d._memoized_coerced_value, 0)))))")
+    w.contract(f"{CV}.coerce_default_value", params={"input_value": "ref:GraphQLInputField"},
+               returns="dyn",
+               requires=["InputTy(input_value.type)"],
+               # class invariant of GraphQLDefaultInput: set up by its constructor (memo Undefined),
+               # kept by this function - the only other writer (finite check in props/C15.py)
+               class_invariants=["implies(input_value.default is not None, MemoOK(input_value.default))"],
+               ensures=["implies(input_value.default is not None,"
+                        " same(result, CD(input_value.default, input_value.type)))",
+                        "implies(input_value.default is not None, MemoOK(input_value.default))",
+                        "implies(input_value.default is None, same(result, input_value.default_value))"],
+               raises=["TypeError", "Exception"],
+               on_raise={"TypeError": ["input_value.default is not None",
+                                       "is_undefined(CD(input_value.default, input_value.type))"]},
+               modifies=["self._memoized_coerced_value"], valid_schema=True,
+               props={"C15", "C02", "C13"})
+
+
+_lit_prev3 = install
+
+
+def install(w):   # noqa: F811
+    _lit_prev3(w)
+    install_default_memo(w)
